@@ -22,16 +22,16 @@ func init() {
 		Title: "Live index and corpus always equal what a restart would load",
 		Explanation: "Decided (structural necessary conditions, all in pkg/index): " +
 			"K-tables — the three row-kind tables agree: every prefix in slurpPrefixes (what a restart scans) has a non-nil merge function in corpusMergeFunc and is spelt with the separator the indexer actually writes for that kind; every non-nil merge function's kind is in slurpPrefixes; every row kind the indexer can write (keys given to mutationMap.Set, stored into mutationMap.kv, or written straight to the sorted.KeyValue; a key or key map that is a parameter of a wrapper is resolved at every call site of the wrapper) is classified — a key of corpusMergeFunc or an entry of the reasoned index-only table; scanFromStorage scans exactly slurpPrefixes (explicit head + the ranged tail); the live merge in Corpus.addBlob dispatches through corpusMergeFunc[typeOfKey(k)] on the very (k,v) of mm.kv behind a gate equivalent to the load set; slurpedKeyType is built only from slurpPrefixes; scanPrefix dispatches through the same table. " +
-			"K-owner — who may write the caches that a restart rebuilds from rows: Index.deletes is (re)assigned only by the loader of 'deleted' rows (before it reads them) or on a freshly allocated Index that is not loaded afterwards; its map is written only by the constructor, the loader and the live updater, and every call of the live updater comes after a successful CommitBatch with a claim taken from mm.deletes; New's success returns are dominated by both loaders or lie in the about-to-reindex branch with a fresh cache; Index.needs/neededBy: an add (x.f[k] = append(x.f[k], v), recognised by its shape, not by the name of the function it stands in) happens only while loading the 'missing' rows or after the 'missing|have|missing' row keyed by the same pair was written successfully — where the add stands, or at every call site of the function that makes it (the in-memory adder); the other writes of needs/neededBy/readyReindex only in the tabled functions (their function literals included); Corpus fields are written only by *Corpus methods, unexported helpers of pkg/index, or the constructor, reachable only from the load entry (scanFromStorage) or the live entry (addBlob); Corpus.deletes is written only by its 'deleted'-row loader, which dominates every success return of scanFromStorage, and by the live updater, every caller of which passes a claim of mm.deletes; Index.corpus is only ever NewCorpusFromStorage(x.s) of the same index and Index.s is never replaced on a live index (one reasoned test hook); mutationMap.deletes is appended to only by the note-delete step (a function that appends its claim parameter to its mutation-map parameter, recognised by that) or at a place that itself satisfies K-delete-row. Roles are decided on EFFECTIVE BODIES (see below); an unexported helper that writes a cache is accepted when every one of its static callers is, with the helper's writes counted as its own, accepted in one of the roles (recursively, depth 3), and reported when it has any other caller. " +
+			"K-owner — who may write the caches that a restart rebuilds from rows: Index.deletes is (re)assigned only by the loader of 'deleted' rows (before it reads them) or on a freshly allocated Index that is not loaded afterwards; its map is written only by the constructor (a function that writes only the cache object it allocates, or the same written out in place: `&deletionCache{m: make(...)}` — in the loader any (re)initialisation of the map must, like the assignment of x.deletes, come before the rows are read; after a Wipe the object installed must be new and its map a new empty one), the loader and the live updater, and every add of the live updater comes after a successful CommitBatch with a key and value derived from a claim taken from mm.deletes — decided where the add stands (the updater written out in commit) or else at every call site of the function that makes it, recursively, never across go/defer; New's success returns are dominated by both loaders or lie in the about-to-reindex branch with a fresh cache; Index.needs/neededBy: an add (x.f[k] = append(x.f[k], v), recognised by its shape, not by the name of the function it stands in) happens only while loading the 'missing' rows or after the 'missing|have|missing' row keyed by the same pair was written successfully — where the add stands, or at every call site of the function that makes it (the in-memory adder); the other writes of needs/neededBy/readyReindex only in the tabled functions (their function literals included); Corpus fields are written only by *Corpus methods, unexported helpers of pkg/index, or the constructor, reachable only from the load entry (scanFromStorage) or the live entry (addBlob); Corpus.deletes is written only by its 'deleted'-row loader, which dominates every success return of scanFromStorage, and by the live updater, every add of which (key and value of the map update; where it stands or seen from every caller) is derived from a claim of mm.deletes; a row query is recognised by what it is given — the keyType variable, or the prefix string of that kind built in place (key.Prefix(), name + separator) — and that it returns a sorted.Iterator, not by the wrapper's name; Index.corpus is only ever NewCorpusFromStorage(x.s) of the same index and Index.s is never replaced on a live index (one reasoned test hook); mutationMap.deletes is appended to only by the note-delete step (a function that appends its claim parameter to its mutation-map parameter, recognised by that) or at a place that itself satisfies K-delete-row. Roles are decided on EFFECTIVE BODIES (see below); an unexported helper that writes a cache is accepted when every one of its static callers is, with the helper's writes counted as its own, accepted in one of the roles (recursively, depth 3), and reported when it has any other caller. " +
 			"K-delete-row — every note of a delete claim (call of the note-delete step, or direct append to mm.deletes) is preceded, in the effective body of the function or — that being a helper — of each of its callers, by a put of a keyDeleted row (mutationMap.Set or a store into mm.kv) on the same mm whose key parts are cl.Target(), cl.ClaimDateString(), cl.Blob().BlobRef() in the order kvDeleted reads them, values followed through helper parameters; a put inside a helper counts only if every success return of the helper has passed it and the note is on the helper's err == nil edge; and every keyDeleted row put into mm is followed on all paths — through helpers that always note, and past the return of a helper into each of its callers — by the note on that mm. " +
 			"K-live — at every call of Corpus.addBlob (today in ReceiveBlob only): addBlob receives the same mutationMap a successful Index.commit wrote (commit found in the effective body of the caller, or of every caller of the caller when that is a helper; mm and the index followed through parameters), on the corpus field of that very index, under that index's write lock (a helper is entered with the locks that every one of its static callers holds at the call; it must not release before addBlob); every path from a commit to a success return passes addBlob on the same mm unless the corpus is nil — a helper that always (or on every success return) reaches addBlob counts, a helper's return continues in its callers; commit applies mm.deletes to the index cache only after CommitBatch succeeded and, in its effective body, writes every (k,v) of mm.kv unconditionally into the one batch it begins and commits; rows of a kind the corpus merges are never written to the store behind the corpus's back (direct KeyValue.Set/Delete sites write only non-slurped kinds; one reasoned exception, helpers called only from it included, re-checked: every caller re-opens the index); every success return of addBlob comes after its merge loops over mm.kv and mm.deletes, loops in helpers counting when every success return of the helper is behind the loop and addBlob is on the helper's success edge (violated on the current tree by the duplicate-blob early return: a delete claim that arrived before its target is committed twice, the second time with its 'deleted' and 'claim' rows, and the live corpus skips that second mutation map). " +
 			"EFFECTIVE BODIES (K-tables scan set / live gate / scan dispatch / row kinds, K-owner, K-delete-row, K-live): a site `in function F` is looked for in F plus, transitively to depth 4, the unexported functions and methods of pkg/index and the function literals F calls statically (literals handed to a call or returned are included as `runs later, maybe`), a parameter of a helper standing for the caller's argument. `P done before Q` across a call: the call precedes Q, Q is on the call's err == nil edge (or returns the call's own error), and inside the helper every return that may report success is itself behind P in the same sense; go/defer/callback links never establish `done`. Who-may-call / who-may-write rules accept an unexported helper only if ALL its static callers are accepted (no function-value use, no interface dispatch), and keep reporting any other. " +
-			"K-inval — derived live state is invalidated / re-derived when its inputs change. Generation-stamped caches are discovered, not named: a struct field of pkg/index (today lazySortedPermanodes.ofGen) that is compared with or assigned from an integer field of Corpus/Index (today Corpus.gen). (reader, #cache-protocol) a forward abstract interpretation of every function touching the cache fields (callees on the same cache object analysed in context) decides that content which may date from an older generation is returned, stored or passed on only on the stamp==generation edge, that a cache field is rebuilt only from such content, and that the stamp is assigned only the generation itself and only when every cache field it then vouches for was cleared, rebuilt, or is on that edge. (generation, #gen-store) every assignment of the generation on an existing corpus is `itself + positive constant`; its address is never handed out. (writer, #inval:T.f) the set of locations (struct field, or elements of a named map/slice type, of pkg/index and pkg/types/camtypes) read by the functions that compute the cache content is collected over the resolved call structure (static calls, the pnTime functions stored into the cache object, restricted-CHA invokes, callbacks; branches contradicted by constant string arguments such as signerFilter==\"\" are pruned); every write of such a location in a function reachable from Corpus.addBlob (static calls, the corpusMergeFunc dispatch, function parameters such as mutateFileInfo's fn; writes through map/slice parameters are attributed to the argument; sort.*/slices.Sort* count as in-place writes) must, on every path through addBlob that executes it, also pass an increment of the generation: the increment dominates the write in the same function, or every path from the write to a return of that function passes one, or (recursively) this holds at every call site up to addBlob; a callee that increments on all its paths counts as an increment; `go` never does. Both placements (once in addBlob, or in every writer) are accepted; an uncovered writer is reported with function and location. (#inval-outside) a write of such a location in any other module function is allowed only under scanFromStorage; (#load-on-fresh-corpus) scanFromStorage runs only on a Corpus its caller just allocated, which is why the load path needs no increment; (#no-cache-reader) no cache builder is reachable from addBlob/scanFromStorage (undecided otherwise). (#derived) PermanodeMeta fields assigned by restoreInvariants (attr, signer) are derived from the other receiver fields it reads (Claims): on the live path every write of Claims on an existing permanode is followed, on every path to a return with building==false, by a call on the same permanode of a method that writes attr/signer (or a direct assignment); Corpus.building is assigned only by scanFromStorage and false on its success returns. (#order-invariant / #order:T.f) order invariants are discovered, not named: every in-place sort (sort.Sort/Stable/Slice/SliceStable, slices.Sort*) executed under a load entry (scanFromStorage for the corpus; initDeletesCacheLocked for the index's own deletion cache) on a slice that is, is an element of, or is stored into a struct field of index/corpus state (today PermanodeMeta.Claims by claim date, Corpus.deletes[target] and deletionCache.m[target] by deletion date, newest first) makes `sorted by that comparator` an invariant of the field; the comparator is identified by what it computes — its Less method / less function rendered symbolically over SLICE, I, J (sort.Reverse swaps I and J), e.g. call((time.Time).Before;SLICE[I].Date;SLICE[J].Date) — not by its type name. Every write of such a field reachable from the live entry (addBlob with building == false; Index.commit) must either store a value that was sorted by the same symbolic comparator on every path to the store, or be followed on every path to the return of the writing function (and, when the written object is a parameter, of its callers up to the live entry) by one of: the same sort of the same field of the same object (directly, or a call handing on the object or the slice to a function all of whose returns are so covered); the in-order edge of a comparison of the last two elements by the comparator's own key (Less(len-2,len-1) true or Less(len-1,len-2) false, also written out on the key fields, with After for Before, through a one-line helper, or kept in a local) — accepted only while the slice is `sorted + exactly one appended element`; an edge on which len(field) < 2 (== 0, == 1, <= 1; if or switch) is known, the length and elements having been read after the last write. A return reached otherwise is reported as `the live path can leave T.f unsorted; the load path sorts it`; a live sort of the field by another comparator is reported too; element stores and writes through aliases are undecided. " +
+			"K-inval — derived live state is invalidated / re-derived when its inputs change. Generation-stamped caches are discovered, not named: a struct field of pkg/index (today lazySortedPermanodes.ofGen) that is compared with or assigned from an integer field of Corpus/Index (today Corpus.gen). (reader, #cache-protocol) a forward abstract interpretation of every function touching the cache fields (callees on the same cache object analysed in context) decides that content which may date from an older generation is returned, stored or passed on only on the stamp==generation edge, that a cache field is rebuilt only from such content, and that the stamp is assigned only the generation itself and only when every cache field it then vouches for was cleared, rebuilt, or is on that edge. (generation, #gen-store) every assignment of the generation on an existing corpus is `itself + positive constant`; its address is never handed out. (writer, #inval:T.f) the set of locations (struct field, or elements of a named map/slice type, of pkg/index and pkg/types/camtypes) read by the functions that compute the cache content is collected over the resolved call structure (static calls, the pnTime functions stored into the cache object, restricted-CHA invokes, callbacks; branches contradicted by constant string arguments such as signerFilter==\"\" are pruned); every write of such a location in a function reachable from Corpus.addBlob (static calls, the corpusMergeFunc dispatch, function parameters such as mutateFileInfo's fn; writes through map/slice parameters are attributed to the argument; sort.*/slices.Sort* count as in-place writes) must, on every path through addBlob that executes it, also pass an increment of the generation: the increment dominates the write in the same function, or every path from the write to a return of that function passes one, or (recursively) this holds at every call site up to addBlob; a callee that increments on all its paths counts as an increment; `go` never does. Both placements (once in addBlob, or in every writer) are accepted; an uncovered writer is reported with function and location. (#inval-outside) a write of such a location in any other module function is allowed only under scanFromStorage; (#load-on-fresh-corpus) scanFromStorage runs only on a Corpus its caller just allocated (itself, or through a constructor every result of which is a new object), which is why the load path needs no increment; (#no-cache-reader) no cache builder is reachable from addBlob/scanFromStorage (undecided otherwise). (#derived) PermanodeMeta fields assigned by restoreInvariants (attr, signer) are derived from the other receiver fields it reads (Claims): on the live path every write of Claims on an existing permanode is followed, on every path to a return with building==false, by a call on the same permanode of a method that writes attr/signer (or a direct assignment); Corpus.building is assigned only by scanFromStorage and false on its success returns. (#order-invariant / #order:T.f) order invariants are discovered, not named: every in-place sort (sort.Sort/Stable/Slice/SliceStable, slices.Sort*) executed under a load entry (scanFromStorage for the corpus; for the index's own deletion cache the function found by its role — it reads the 'deleted' rows itself and fills Index.deletes, today initDeletesCacheLocked; undecided if there is none) on a slice that is, is an element of, or is stored into a struct field of index/corpus state (today PermanodeMeta.Claims by claim date, Corpus.deletes[target] and deletionCache.m[target] by deletion date, newest first) makes `sorted by that comparator` an invariant of the field; the comparator is identified by what it computes — its Less method / less function rendered symbolically over SLICE, I, J (sort.Reverse swaps I and J), e.g. call((time.Time).Before;SLICE[I].Date;SLICE[J].Date) — not by its type name. Every write of such a field reachable from the live entry (addBlob with building == false; Index.commit) must either store a value that was sorted by the same symbolic comparator on every path to the store, or be followed on every path to the return of the writing function (and, when the written object is a parameter, of its callers up to the live entry) by one of: the same sort of the same field of the same object (directly, or a call handing on the object or the slice to a function all of whose returns are so covered); the in-order edge of a comparison of the last two elements by the comparator's own key (Less(len-2,len-1) true or Less(len-1,len-2) false, also written out on the key fields, with After for Before, through a one-line helper, or kept in a local) — accepted only while the slice is `sorted + exactly one appended element`; an edge on which len(field) < 2 (== 0, == 1, <= 1; if or switch) is known, the length and elements having been read after the last write. A return reached otherwise is reported as `the live path can leave T.f unsorted; the load path sorts it`; a live sort of the field by another comparator is reported too; element stores and writes through aliases are undecided. " +
 			"K-order-free — the result of merging a set of rows does not depend on the ORDER in which rows of different kinds are merged (a restart merges kind by kind in slurpPrefixes order, every 'meta' row before every other row; the live corpus merges in arrival order and, within one mutation map, in Go map order). Row kinds are the non-nil entries of corpusMergeFunc, each with its own resolved call structure (so mutateFileInfo's fn is that kind's closure only); *Corpus methods that addBlob / scanPrefix call directly join the kind whose merge function they reach (addKeyID: signerkeyid) or, when they write corpus state themselves, form the kind of rows merged outside the table (updateDeletes). For every function under a kind, every branch condition on which a write of corpus state (struct fields and elements of named map/slice types of pkg/index and camtypes, by type), a panic, or a call leading to one is (transitively) control dependent — control dependence from post-dominators, return and panic both exits —, and every non-nil error result of the kind's entry points, is sliced backwards through data AND control dependence: operands, phi selection, results of calls (returned values plus the conditions that select the return, the callee entered with a bounded call-string context so that a helper's parameters are those of the call under analysis), closures, captured variables, spilled locals, objects built in place and what callees store into them, parameters bound to the arguments at the kind's own call sites; code outside pkg/index/camtypes is taken to compute from its arguments only. The slice may reach only (1) the row (k, v, the mutation map), (2) locations no other kind's call structure writes (get-or-create of the kind's own entries, c.building, ...), (3) locations all of whose other writers belong to kinds merged first on BOTH paths — load: an explicit scanPrefix of that prefix success-dominates the scan that delivers this kind; live: a direct merger of that kind, given addBlob's mutation map, success-dominates the row dispatch (today only keyId, read when claims are merged). Anything else — c.blobs (filled by 'meta' rows) deciding whether a dirchild/fileinfo/imagesize/claim row or a deletion takes effect, c.files (fileinfo and filetimes), c.deletes, ... — is reported with the function, the location and its writers. What makes the helpers transparent is proved, not named: a field that is only ever read to be written back (brInterns) is no effect; a Corpus map all of whose updates are M[k] = k (strs) or M[v.f] = v with f never reassigned anywhere (blobs by .Ref), used only through its field, is an interning table, the maintenance of an identity table is no effect, and a function whose every return is the same function of one parameter — the parameter, a conversion of it, a constant it is known to equal, or what such a table holds under it on the `found` edge — passes on only that argument's dependences (br, str, strB); a field every load of which is preceded on all paths by the function's own stores (the scratch slice ss) carries the stored values; a zero-length reslice carries nothing. A read that only selects WHICH value is written (mutateFileInfo's read-modify-write of c.files, shared by fileinfo and filetimes) is listed as a note, not an obligation. " +
 			"NOT decided: that the merge functions compute from a row the same state live as at load for every history (e.g. the `building`-only update of hasLegacySHA1; that fixupLastClaim's incremental attribute update equals restoreInvariants' full rebuild; the relative order of elements the comparator considers equal — sort.Sort is not stable and the load path sees row order, the live path arrival order; order invariants that the load path gets from the row order of the sorted.KeyValue rather than from an explicit sort), that every reader of the caches holds the index lock, that the read set is exact (it is an over-approximation by type: e.g. any FileInfo.Time write counts), generation increments placed in callers of addBlob (reported as uncovered), equality of query answers for any concrete arrival history or sorted.KeyValue backend, behaviour of out-of-order arrival beyond the order and order-free clauses, contents of rows; for K-order-free: that the keyId entry a claim row consults is the one carried by the same mutation map (a fact of receive.go), order dependence through WHICH value is written (noted only: fileinfo and filetimes write disjoint FileInfo fields, which is not checked), implicit panics (nil dereference, index out of range), conditions in the drivers themselves (addBlob's duplicate check is K-live's finding), the load-side reader of 'deleted' rows (initDeletes) against its live counterpart updateDeletes (two functions: their agreement is not decided), hidden state of functions outside pkg/index/camtypes; locations are by type, so two objects of one type are not told apart (over-approximation: can only add reports).",
 		RuleDocs: map[string]string{
 			"K-tables":     "H6 table agreement over slurpPrefixes / corpusMergeFunc / written row kinds (+ separators), scan set, live-merge gate and dispatch",
-			"K-owner":      "H5 who-may-write by role, over effective bodies: Index.deletes (+ its map: constructor / loader / live updater after CommitBatch / after Wipe), adds to Index.needs/neededBy (loader, or after the matching 'missing' row), other writes of needs/neededBy/readyReindex (table), Corpus fields, Corpus.deletes, mutationMap.deletes; a helper is accepted only if all its callers are; open path loads both caches",
+			"K-owner":      "H5 who-may-write by role, over effective bodies: Index.deletes (+ its map: constructor, also written out in place / loader / live add after CommitBatch derived from mm.deletes, where it stands or at every caller / after Wipe), adds to Index.needs/neededBy (loader, or after the matching 'missing' row), other writes of needs/neededBy/readyReindex (table), Corpus fields, Corpus.deletes, mutationMap.deletes; a helper is accepted only if all its callers are; open path loads both caches",
 			"K-delete-row": "H2 over effective bodies: a delete claim is noted (note-delete step, by role) only where the 'deleted' row for the same claim was put into the same mutation map, and vice versa (paths followed into helpers and past helper returns)",
 			"K-live":       "H7/H3/H2 over effective bodies: addBlob gets the committed mm, after commit success, under the write lock (helpers entered with the locks all their callers hold), and merges all of it; commit feeds caches only after CommitBatch; no slurped row kind bypasses commit",
 			"K-order-free": "backward slice (data + control dependence, interprocedural with call-string context) of every branch condition that decides whether a merge function writes corpus state, panics or fails: it may depend only on the row, on state no other row kind writes, or on state of a kind both paths merge first; c.br/c.str/c.strB are transparent by proof (interning tables M[k]=k, M[v.f]=v), brInterns and the scratch slice by dataflow facts",
@@ -40,7 +40,7 @@ func init() {
 		Run:       runC06,
 		DesignRef: "DESIGN.md §4 C06",
 		Technique: "static analysis: table agreement extracted from the package initializer's SSA, who-may-write enumeration over field stores and map updates with role classification, dominance on error-nil edges carried across static calls of unexported helpers and function literals (effective bodies with call chains, parameter-to-argument resolution, success-return summaries), path exploration with helper summaries and continuation into callers, locksets with inferred entry locksets of helpers, value dependence; for K-inval: field read/write sets by type over a resolved call graph (table dispatch, function-valued fields and parameters, callbacks), interprocedural must-pass-through (dominance or post-dominance of a generation increment at each level of the call chain), and a forward dataflow over the cache readers (stamp-valid / may-hold-old-content bits per cache field); for the order clause: symbolic rendering of comparators (Less methods and less functions inlined over placeholders) to compare the load path's sorts with the live path's sorts and order checks, and a three-state path exploration (sorted / sorted plus one appended element / unknown) with branch facts, phi-resolved conditions and per-callee summaries; for K-order-free: post-dominator based control dependence, an interprocedural backward slice (data and control dependence, bounded call-string contexts, closures, captured and spilled variables, must-reaching stores for scratch fields), per-kind call structures and write sets, table invariants (identity / keyed-by-field maps) proved from every update site, symbolic equality of all returns of a helper, success-dominance for the merged-first relation on the load and the live path",
-		LevelText: "Decides structural necessary conditions only: the live path and the restart path of the index deletion cache, the dependency maps and the corpus are driven by the same row kinds, the same rows and the same tables, and no other code writes those caches. Also decides that the lazily sorted permanode caches cannot outlive a change of anything they are computed from (one generation increment per update that writes an input, caches served only for the current generation) and that the per-permanode attribute caches are brought up to date after every live claim, and that every slice the load path sorts (claims of a permanode, deletions of a blob in the corpus and in the index cache) is left sorted by the same comparator by every live write, on every path. Also decides that no merge function lets state filled by rows of another kind decide whether its own row takes effect (the live arrival order and the restart's kind-by-kind order would then give different corpora from the same rows), except where both paths merge that other kind first. Does not decide that both paths compute equal state for every arrival history, nor anything about concrete sorted.KeyValue backends. The function-local clauses (K-tables, K-owner, K-delete-row, K-live, the building flag) are decided on effective bodies — a function together with the unexported helpers and function literals it calls, ordering and success facts carried across the calls, helpers accepted only when all their callers are — so that extracting a helper, splitting a function, turning a closure into a method or inlining a one-line helper neither hides a breakage nor raises an alarm; the name anchors that remain are the mechanism's own entry points (New, ReceiveBlob's commit/addBlob, scanFromStorage/scanPrefix, NewCorpusFromStorage, initDeletesCacheLocked, restoreInvariants, typeOfKey).",
+		LevelText: "Decides structural necessary conditions only: the live path and the restart path of the index deletion cache, the dependency maps and the corpus are driven by the same row kinds, the same rows and the same tables, and no other code writes those caches. Also decides that the lazily sorted permanode caches cannot outlive a change of anything they are computed from (one generation increment per update that writes an input, caches served only for the current generation) and that the per-permanode attribute caches are brought up to date after every live claim, and that every slice the load path sorts (claims of a permanode, deletions of a blob in the corpus and in the index cache) is left sorted by the same comparator by every live write, on every path. Also decides that no merge function lets state filled by rows of another kind decide whether its own row takes effect (the live arrival order and the restart's kind-by-kind order would then give different corpora from the same rows), except where both paths merge that other kind first. Does not decide that both paths compute equal state for every arrival history, nor anything about concrete sorted.KeyValue backends. The function-local clauses (K-tables, K-owner, K-delete-row, K-live, the building flag) are decided on effective bodies — a function together with the unexported helpers and function literals it calls, ordering and success facts carried across the calls, helpers accepted only when all their callers are — so that extracting a helper, splitting a function, turning a closure into a method or inlining a one-line helper neither hides a breakage nor raises an alarm; the name anchors that remain are the mechanism's own entry points (New, ReceiveBlob's commit/addBlob, scanFromStorage/scanPrefix, NewCorpusFromStorage, restoreInvariants, typeOfKey); the cache constructors (newDeletionCache, newCorpus), the row-query wrappers (queryPrefix), the live updaters (updateDeletesCache, Corpus.updateDeletes), fixupLastClaim and the index-side loader (initDeletesCacheLocked) are recognised by role, so inlining or renaming them changes nothing.",
 	})
 }
 
@@ -106,6 +106,32 @@ func (cx *c06Ctx) allScope() (*c06CG, []c06WSite) {
 		cx.allSites = c06AllWriteSites(cx.allCG.order, cx.allCG)
 	}
 	return cx.allCG, cx.allSites
+}
+
+// indexDeletesLoaders: the load entry of the index's own deletion cache, by role:
+// the declared functions of pkg/index that write Index.deletes / deletionCache.m
+// (in their effective body) and read the 'deleted' rows themselves, i.e. not
+// through a helper that is itself such a writer (today initDeletesCacheLocked;
+// after inlining it, its callers).
+func (cx *c06Ctx) indexDeletesLoaders() []*ssa.Function {
+	gDeleted := c06Global(cx.pkg, "keyDeleted")
+	if _, ok := cx.keyName[gDeleted]; !ok {
+		brokenf("anchor unresolved: keyDeleted is not a keyType with a constant name")
+	}
+	isW := map[ssa.Instruction]bool{}
+	for _, w := range c06Writes(cx.fns, map[*types.Named]bool{cx.tIndex: true, cx.tDelCache: true}) {
+		if (w.typ == cx.tIndex && w.field == "deletes") || (w.typ == cx.tDelCache && w.field == "m") {
+			isW[w.in] = true
+		}
+	}
+	touch := cx.effReach("w:index.deletes", func(in ssa.Instruction) bool { return isW[in] })
+	var out []*ssa.Function
+	for _, f := range cx.fns {
+		if f.Parent() == nil && touch.any[f] && len(cx.rowQueries(f, gDeleted, func(h *ssa.Function) bool { return touch.any[h] })) > 0 {
+			out = append(out, f)
+		}
+	}
+	return out
 }
 
 func c06Global(pkg *ssa.Package, name string) *ssa.Global {
@@ -1345,6 +1371,13 @@ func (cx *c06Ctx) isRowQuery(c CallSite, g *ssa.Global) bool {
 		if kg, ok := cx.keyGlobalOf(a); ok && kg == g {
 			return true
 		}
+		// the prefix string of that kind, built in place (key.Prefix(...), name + "|"): the
+		// keyType-taking wrapper written out
+		if bt, isB := a.Type().Underlying().(*types.Basic); isB && bt.Info()&types.IsString != 0 {
+			if k, ok := cx.kindOfKey(a); ok && k.typ == cx.keyName[g] {
+				return true
+			}
+		}
 	}
 	return false
 }
@@ -1402,13 +1435,35 @@ func (o c06Occ) dependsUp(v ssa.Value, level int, target func(ssa.Value) bool) b
 
 // afterWipe: w stores a freshly constructed empty cache and is dominated by a
 // successful sorted.Wiper.Wipe() in the (effective body of the) same function.
-func (cx *c06Ctx) afterWipe(fn *ssa.Function, w c06Write, ctors map[*ssa.Function]bool) bool {
+func (cx *c06Ctx) afterWipe(fn *ssa.Function, w c06Write, ctors map[*ssa.Function]bool, g *c06Grp) bool {
 	st, ok := w.in.(*ssa.Store)
 	if !ok {
 		return false
 	}
-	call, ok := originValue(st.Val).(*ssa.Call)
-	if !ok || !ctors[(CallSite{fn, call}).Callee()] {
+	switch v := originValue(st.Val).(type) {
+	case *ssa.Call:
+		if !ctors[(CallSite{fn, v}).Callee()] {
+			return false
+		}
+	case *ssa.Alloc:
+		// the constructor written out in place: a cache object allocated here whose map is
+		// only ever given a new, empty map
+		if v.Parent() != fn || NamedOf(v.Type()) != cx.tDelCache {
+			return false
+		}
+		for _, mw := range g.mapw {
+			if originValue(mw.base) != ssa.Value(v) {
+				continue
+			}
+			ms, isStore := mw.in.(*ssa.Store)
+			if !isStore || mw.kind != "assign" {
+				return false
+			}
+			if _, isMake := originValue(ms.Val).(*ssa.MakeMap); !isMake {
+				return false
+			}
+		}
+	default:
 		return false
 	}
 	wipes := cx.effCalls(fn, "call:Wipe", func(c CallSite) bool {
@@ -1420,6 +1475,38 @@ func (cx *c06Ctx) afterWipe(fn *ssa.Function, w c06Write, ctors map[*ssa.Functio
 }
 
 func c06LastInstr(b *ssa.BasicBlock) ssa.Instruction { return b.Instrs[len(b.Instrs)-1] }
+
+// addedFrom: what the write at occ0 adds is derived from a value satisfying
+// target — the key and the value of a map update (both), or, for a call that
+// stands for the write of a helper attributed to its caller, one of the
+// arguments handed to the helper. Decided where the write stands or else, the
+// function being an enumerable helper, at every one of its call sites
+// (parameters standing for the arguments, recursively).
+func (cx *c06Ctx) addedFrom(occ0 c06Occ, target func(ssa.Value) bool) bool {
+	var payload []ssa.Value
+	all := true
+	switch x := occ0.in.(type) {
+	case *ssa.MapUpdate:
+		payload = []ssa.Value{x.Key, x.Value}
+	case ssa.CallInstruction:
+		if a := (CallSite{occ0.in.Parent(), x}).Args(); len(a) > 1 {
+			payload, all = a[1:], false
+		}
+	}
+	if len(payload) == 0 {
+		return false
+	}
+	ok, _ := cx.climb(occ0, -1, func(occ c06Occ) (bool, string) {
+		n := 0
+		for _, a := range payload {
+			if occ.dependsUp(a, occ.leafLevel(), target) {
+				n++
+			}
+		}
+		return n == len(payload) || (!all && n > 0), ""
+	})
+	return ok
+}
 
 type c06Grp struct {
 	assigns, mapw []c06Write
@@ -1569,67 +1656,74 @@ func c06RuleOwner(cx *c06Ctx) {
 				}
 			}
 			for _, w := range g.mapw {
-				if w.kind != "map-update" {
+				switch {
+				case w.kind == "map-update":
+				case w.kind == "assign":
+					// the map of the cache is (re)initialised — where the cache object is built in
+					// place (`&deletionCache{m: make(...)}`, the constructor inlined) or on the
+					// installed cache: like the assignment of x.deletes this is a reset, which
+					// must come before the rows are read
+					for _, q := range qs {
+						if ok, _ := cx.before(c06Occ{root: fn, in: w.in}, q, nil, false); !ok {
+							bad = "the loader re-initialises the map of the deletes cache after (or beside) opening the 'deleted' row iterator: loaded entries can be dropped"
+						}
+					}
+				default:
 					bad = "the loader removes entries from the deletes cache"
 				}
 			}
 			okDetail = "loader: resets the cache before reading the 'deleted' rows, then only adds"
 		case len(g.assigns) == 0:
-			// live updater: every caller after a successful CommitBatch, with a claim from mm.deletes
-			callers := p.StaticCallers(fn)
-			if len(callers) == 0 {
-				bad = "no static caller found for this writer of the deletes cache"
-			}
-			if uses := p.FuncValueUses(fn); len(uses) > 0 {
-				bad = "used as a function value: callers cannot be enumerated"
+			// live updater: every add is made after a successful CommitBatch, with a claim taken
+			// from mm.deletes — decided where the add stands (the updater written out in its
+			// caller) or else, the function being an enumerable helper, at every one of its
+			// call sites (recursively); never across a go/defer
+			synchronous := func(occ c06Occ) (bool, string) {
+				for _, l := range occ.chain {
+					if !l.direct {
+						return false, fmt.Sprintf("reached from %s with go/defer: not ordered after the commit", FuncKey(l.call.Parent()))
+					}
+				}
+				return true, ""
 			}
 			for _, w := range g.mapw {
 				if w.kind != "map-update" {
 					bad = "removes entries from the deletes cache; the restart path only ever adds what the rows say"
-				}
-			}
-			for _, c := range callers {
-				if c.Value() == nil {
-					bad = fmt.Sprintf("called from %s with go/defer: not ordered after the commit", FuncKey(c.Fn))
 					continue
 				}
-				okCommit, fromMM := false, false
-				if ok, _ := cx.climb(c06Occ{root: c.Fn, in: c.Instr}, 0, func(occ c06Occ) (bool, string) {
-					ok, _, why := cx.anyBefore(cx.effCalls(occ.root, "call:CommitBatch", isCB), occ, nil, true)
-					return ok, why
-				}); ok {
-					okCommit = true
-				}
-				if !okCommit {
-					bad = fmt.Sprintf("called from %s where no successful CommitBatch dominates the call: the cache would hold deletions whose rows were not persisted", FuncKey(c.Fn))
-					continue
-				}
-				if ok, _ := cx.climb(c06Occ{root: c.Fn, in: c.Instr}, 0, func(occ c06Occ) (bool, string) {
-					for _, a := range c.Args()[1:] {
-						if occ.dependsUp(a, occ.leafLevel(), fromMMDeletes) {
-							return true, ""
-						}
+				occ0 := c06Occ{root: fn, in: w.in}
+				if ok, why := cx.climb(occ0, -1, func(occ c06Occ) (bool, string) {
+					if ok, why := synchronous(occ); !ok {
+						return false, why
 					}
-					return false, ""
-				}); ok {
-					fromMM = true
+					ok, _, why := cx.anyBefore(cx.effCalls(occ.root, "call:CommitBatch", isCB), occ, nil, true)
+					if !ok {
+						why = fmt.Sprintf("in %s no successful CommitBatch dominates it (%s)", FuncKey(occ.root), why)
+					}
+					return ok, why
+				}); !ok {
+					bad = "adds to the deletes cache where the rows are not known to be persisted: the cache would hold deletions whose rows were not committed: " + why
+					continue
 				}
-				if !fromMM {
-					bad = fmt.Sprintf("called from %s with a claim that is not taken from mm.deletes (the claims whose 'deleted' rows were just committed)", FuncKey(c.Fn))
+				if !cx.addedFrom(occ0, fromMMDeletes) {
+					bad = "adds a deletion that is not taken from mm.deletes (the claims whose 'deleted' rows were just committed)"
 				}
 			}
-			okDetail = "live updater: only adds, every call after a successful CommitBatch with a claim of mm.deletes"
+			okDetail = "live updater: only adds, every add after a successful CommitBatch with a claim of mm.deletes"
 		default:
 			// last acceptable role: an empty cache installed right after the rows were wiped
 			for _, w := range g.assigns {
-				if !cx.afterWipe(fn, w, ctors) {
+				if !cx.afterWipe(fn, w, ctors, g) {
 					bad = "assigns Index.deletes on an existing Index without being the loader of the 'deleted' rows (and not right after a successful Wipe of the rows): a cache that New loaded from the rows is replaced (after a restart IsDeleted forgets every deletion)"
 					badPos = w.in.Pos()
 				}
 			}
-			if bad == "" && len(g.mapw) > 0 {
-				bad = "both re-assigns and mutates the deletes cache without being its loader"
-				badPos = g.mapw[0].in.Pos()
+			for _, w := range g.mapw {
+				// building the fresh (empty, see afterWipe) cache object in place is not a mutation of the cache
+				if bad == "" && !(w.kind == "assign" && c06Fresh(w.base, fn)) {
+					bad = "both re-assigns and mutates the deletes cache without being its loader"
+					badPos = w.in.Pos()
+				}
 			}
 			okDetail = "installs an empty cache only after the rows were wiped successfully"
 		}
@@ -1899,40 +1993,29 @@ func c06RuleOwner(cx *c06Ctx) {
 	}
 	touchCD := cx.effReach("w:corpus.deletes", func(in ssa.Instruction) bool { return isWriteCD[in] })
 	isWriterCD := func(f *ssa.Function) bool { return touchCD.any[f] }
-	var roleCD func(fn *ssa.Function, depth int) (bool, string, string)
-	roleCD = func(fn *ssa.Function, depth int) (bool, string, string) {
+	// sites: the writes of Corpus.deletes in fn (for a helper's writes attributed to fn: the call of the helper)
+	var roleCD func(fn *ssa.Function, sites []ssa.Instruction, depth int) (bool, string, string)
+	roleCD = func(fn *ssa.Function, sites []ssa.Instruction, depth int) (bool, string, string) {
 		if len(cx.rowQueries(fn, gDeleted, isWriterCD)) > 0 {
 			corpusLoaders[fn] = true
 			return true, "loader: fills Corpus.deletes from the 'deleted' rows", ""
 		}
 		bad := ""
-		callers := p.StaticCallers(fn)
-		if len(callers) == 0 || len(p.FuncValueUses(fn)) > 0 {
-			bad = "callers of this writer of Corpus.deletes cannot be enumerated"
-		}
-		for _, c := range callers {
-			ok, _ := cx.climb(c06Occ{root: c.Fn, in: c.Instr}, 0, func(occ c06Occ) (bool, string) {
-				for _, a := range c.Args()[1:] {
-					if occ.dependsUp(a, occ.leafLevel(), fromMMDeletes) {
-						return true, ""
-					}
-				}
-				return false, ""
-			})
-			if !ok {
-				bad = fmt.Sprintf("called from %s with a claim that is not taken from mm.deletes (the claims whose 'deleted' rows were committed)", FuncKey(c.Fn))
+		for _, in := range sites {
+			if !cx.addedFrom(c06Occ{root: fn, in: in}, fromMMDeletes) {
+				bad = fmt.Sprintf("writes Corpus.deletes (line %d) with something other than an entry derived from a claim of mm.deletes (the claims whose 'deleted' rows were committed), here and seen from its callers", p.Fset.Position(in.Pos()).Line)
 			}
 		}
 		if bad == "" {
-			return true, "live updater: every caller passes a claim of mm.deletes", ""
+			return true, "live updater: every add is derived from a claim of mm.deletes", ""
 		}
-		if sites, ok := cx.enumerableCallers(fn); ok && depth < c06EffDepth-1 {
+		if callers, ok := cx.enumerableCallers(fn); ok && depth < c06EffDepth-1 {
 			var served []string
-			for _, cs := range sites {
+			for _, cs := range callers {
 				if _, plain := cs.Instr.(*ssa.Call); !plain {
 					return false, "", bad
 				}
-				ok2, d2, _ := roleCD(cs.Fn, depth+1)
+				ok2, d2, _ := roleCD(cs.Fn, []ssa.Instruction{cs.Instr}, depth+1)
 				if !ok2 {
 					return false, "", bad
 				}
@@ -1954,7 +2037,13 @@ func c06RuleOwner(cx *c06Ctx) {
 			continue // constructor, reported under #corpus
 		}
 		nC++
-		ok, okDetail, bad := roleCD(fn, 0)
+		var sitesCD []ssa.Instruction
+		for _, w2 := range ws {
+			if w2.fn == fn && isWriteCD[w2.in] {
+				sitesCD = append(sitesCD, w2.in)
+			}
+		}
+		ok, okDetail, bad := roleCD(fn, sitesCD, 0)
 		r.Check(ok, rule, construct, p.Pos(fn.Pos()), okDetail, bad)
 	}
 	{
@@ -5655,7 +5744,9 @@ func c06RuleInval(cx *c06Ctx) {
 	// (L) the load entry runs on a corpus nobody has seen yet
 	for _, c := range p.StaticCallers(scanFn) {
 		n++
-		ok := false
+		// allocated by the caller itself (the constructor written out in place) ...
+		ok := c06Fresh(c.Args()[0], c.Fn)
+		// ... or by a constructor the caller calls, every result of which is a new object
 		if call, isCall := originValue(c.Args()[0]).(*ssa.Call); isCall && call.Parent() == c.Fn {
 			if mk := (CallSite{c.Fn, call}).Callee(); mk != nil && mk.Blocks != nil {
 				ok = true
@@ -5679,9 +5770,20 @@ func c06RuleInval(cx *c06Ctx) {
 	// order invariants: the corpus (scanFromStorage vs addBlob, which runs with building == false:
 	// #building-false-when-live) and the index's own deletion cache (its loader vs commit)
 	n += c06RuleOrder(cx, load, live, all, sites, "scanFromStorage", "addBlob", c06AssumeNotBuilding(cx.tCorpus), 2)
-	initDel := p.Func(c06Rel, "Index", "initDeletesCacheLocked")
+	// the load entry of the index's own deletion cache is found by its role (the function that
+	// reads the 'deleted' rows and fills Index.deletes), not by its name
+	initDel := cx.indexDeletesLoaders()
+	var initDelNames []string
+	for _, f := range initDel {
+		initDelNames = append(initDelNames, c06FnName(f))
+	}
 	commit := p.Func(c06Rel, "Index", "commit")
-	n += c06RuleOrder(cx, cx.buildCG([]*ssa.Function{initDel}, false), cx.buildCG([]*ssa.Function{commit}, false), all, sites, "initDeletesCacheLocked", "Index.commit", nil, 1)
+	if len(initDel) == 0 {
+		n++
+		r.Undecided(rule, "pkg/index#order-invariants:index-deletes-loader", p.Pos(commit.Pos()), "no function of pkg/index reads the 'deleted' rows and fills Index.deletes: the load entry of the index deletion cache cannot be found, so the order its entries are loaded in cannot be compared with the live path")
+	} else {
+		n += c06RuleOrder(cx, cx.buildCG(initDel, false), cx.buildCG([]*ssa.Function{commit}, false), all, sites, strings.Join(initDelNames, ", "), "Index.commit", nil, 1)
+	}
 	r.Analysed("inval_obligations", n)
 	r.Floor(rule, 26) // 24 before the order clause + 3 order invariants + 3 ordered live writes, minus slack
 }
